@@ -70,7 +70,10 @@ def run(ctx):
                                 % (len(diffs), len(cases), d["header"], L.last_op_before(d["lines"], d["first"]), d["impl"], d["other"]))
     known = L.load_known(ctx.pid)
     seen = set()
-    for case, c in L.run_monitor(ctx, "c16", TRANSCRIPT):
+    impl_complaints = L.run_monitor(ctx, "c16", TRANSCRIPT)
+    # the model exhibits the known finding too (repurchase_before_exit_is_lost): complaints it shares with the implementation are judged below
+    L.monitor_accepts_model(ctx, "c16", model, impl_complaints)
+    for case, c in impl_complaints:
         body, _, op = c.partition(" @ ")
         if not body.startswith("PROP "):
             continue
